@@ -404,6 +404,13 @@ def activity(cx):
         if hf is not None and hf.vis != "Public" and hf.impl_adt == ac.impl_adt:
             helpers.add(hf.key)
     ok = any(s.fn.key in helpers and "stmt" in s.data and write_value(cx, s) == ("bool", True) for s in cx.prog.writes.get("Progress.recent_active", []))
+    if not ok:
+        # or the progress is built with the flag already set (`Progress { recent_active: true, ..Progress::new(..) }`)
+        from .commit import ctor_sites
+        for f, bi, si, st in ctor_sites(cx, "progress::Progress"):
+            if f.key in helpers and "recent_active" in st["rv"]["fields"]:
+                v = cx.prog.A(f).expr_operand(st["rv"]["ops"][st["rv"]["fields"].index("recent_active")], (bi, si))
+                ok = ok or v == ("bool", True)
     cx.check(ok, "apply_conf", "a freshly added peer starts recently active (it cannot have answered yet)")
 
 
